@@ -36,3 +36,341 @@ Proof.
   induction 1 as [|it rest a b Ha Hc _ IH]; intro H2; [exact H2|].
   rewrite <- app_assoc. cbn [app]. constructor; [exact Ha|exact Hc|apply IH; exact H2].
 Qed.
+
+(* ------------------------------------------------------------------ B. numbers and quantifiers *)
+From Tdda Require Import Rexpy.DecProofs.
+
+Lemma read_digits_run ds : forall acc seen r,
+  forallb is_09 ds = true -> match r with c :: _ => is_09 c = false | [] => True end -> ds <> [] \/ seen = true ->
+  read_digits (ds ++ r) acc seen = (Some (fold_left (fun a c => a * 10 + (c - 48)) ds acc), r).
+Proof.
+  induction ds as [|d ds IH]; intros acc seen r Hd Hr Hs; cbn [app fold_left].
+  - destruct Hs as [Hs | ->]; [congruence|]. destruct r as [|c r]; cbn [read_digits]; [reflexivity|]. rewrite Hr. reflexivity.
+  - cbn [forallb] in Hd. apply andb_true_iff in Hd as [Hd1 Hd2]. cbn [read_digits]. rewrite Hd1.
+    apply IH; [exact Hd2|exact Hr|right; reflexivity].
+Qed.
+
+Lemma read_digits_dec n r : 0 <= n -> match r with c :: _ => is_09 c = false | [] => True end ->
+  read_digits (dec_of_Z n ++ r) 0 false = (Some n, r).
+Proof.
+  intros Hn Hr. destruct (dec_of_Z_digits n Hn) as [Hd Hne].
+  rewrite (read_digits_run _ 0 false r Hd Hr (or_introl Hne)). pose proof (undec_dec n Hn) as Hu. unfold undec in Hu.
+  rewrite Hu. reflexivity.
+Qed.
+
+(* the first character of an atom's text is neither a sequence-level special ( $ ) nor a quantifier *)
+Definition head_ok (regex : str) : Prop :=
+  match regex with
+  | c :: _ => (Z.eqb c 36 || Z.eqb c 41 || Z.eqb c 40 || Z.eqb c 42 || Z.eqb c 43 || Z.eqb c 63 || Z.eqb c 123) = false
+  | [] => False
+  end.
+
+Definition atom_ok (cs : cset) (regex : str) : Prop :=
+  (forall x, parse_atom (regex ++ x) = Some (cs, x)) /\ head_ok regex.
+
+Lemma head_ok_not_quant regex x : head_ok regex -> starts_quant (regex ++ x) = false.
+Proof.
+  destruct regex as [|c regex]; [intros []|]. cbn [head_ok app starts_quant]. intro H.
+  repeat (apply orb_false_iff in H as [H ?]). repeat (apply orb_false_iff; split); assumption.
+Qed.
+
+(* one step of parse_seq over an atom text followed by anything whose quantifier parses *)
+Lemma parse_seq_step fuel top cs regex tail m M r2 rest r3 : atom_ok cs regex ->
+  parse_quant tail = Some (m, M, r2) ->
+  parse_seq fuel top r2 = Some (rest, r3) ->
+  parse_seq (S fuel) top (regex ++ tail) = Some ({| i_set := cs; i_min := m; i_max := M |} :: rest, r3).
+Proof.
+  intros [Ha Hh] Hq Hr. destruct regex as [|c regex]; [destruct Hh|]. cbn [head_ok] in Hh.
+  repeat (apply orb_false_iff in Hh as [Hh ?]).
+  cbn [parse_seq app]. rewrite Hh. replace (Z.eqb c 41) with false by (symmetry; assumption).
+  replace (Z.eqb c 40) with false by (symmetry; assumption).
+  change (c :: regex ++ tail) with ((c :: regex) ++ tail). rewrite Ha, Hq, Hr. reflexivity.
+Qed.
+
+Definition quant_ok (m : Z) (M : option Z) : Prop := 0 <= m /\ match M with Some M' => 0 <= M' | None => True end.
+
+(* the items that the text of a quantified atom parses to, and what they accept *)
+Definition quant_items (cs : cset) (regex : str) (m : Z) (M : option Z) : list item :=
+  match M with
+  | None => [{| i_set := cs; i_min := (if Z.eqb m 0 then 0 else 1); i_max := None |}]
+  | Some M' =>
+    if Z.eqb m M' && negb (Z.eqb m 1) && Z.eqb m 2 && Nat.eqb (length regex) 1
+    then [{| i_set := cs; i_min := 1; i_max := Some 1 |}; {| i_set := cs; i_min := 1; i_max := Some 1 |}]
+    else [{| i_set := cs; i_min := m; i_max := Some M' |}]
+  end.
+
+Lemma quantified_parses fuel top cs regex m M rest irest rend :
+  atom_ok cs regex -> quant_ok m M -> starts_quant rest = false ->
+  parse_seq fuel top rest = Some (irest, rend) ->
+  parse_seq (length (quant_items cs regex m M) + fuel) top (quantify regex m M ++ rest) =
+  Some (quant_items cs regex m M ++ irest, rend).
+Proof.
+  intros Hok [Hm HM] Hsq Hrest. pose proof Hok as [Ha Hh].
+  assert (Hplain : forall f, parse_seq f top rest = Some (irest, rend) ->
+            parse_seq (S f) top (regex ++ rest) = Some ({| i_set := cs; i_min := 1; i_max := Some 1 |} :: irest, rend)).
+  { intros f Hf. eapply parse_seq_step; [exact Hok| |exact Hf].
+    unfold parse_quant. destruct rest as [|c rest]; [reflexivity|]. cbn [starts_quant] in Hsq.
+    repeat (apply orb_false_iff in Hsq as [Hsq ?]).
+    rewrite Hsq. replace (Z.eqb c 43) with false by (symmetry; assumption).
+    replace (Z.eqb c 63) with false by (symmetry; assumption). replace (Z.eqb c 123) with false by (symmetry; assumption).
+    reflexivity. }
+  assert (Hone : forall qt m' M', parse_quant (qt ++ rest) = Some (m', M', rest) ->
+            parse_seq (S fuel) top ((regex ++ qt) ++ rest) = Some ({| i_set := cs; i_min := m'; i_max := M' |} :: irest, rend)).
+  { intros qt m' M' Hq. rewrite <- app_assoc. eapply parse_seq_step; [exact Hok|exact Hq|exact Hrest]. }
+  unfold quantify, quant_items. destruct M as [M'|].
+  - destruct (Z.eqb_spec m M') as [<-|Hne]; cbn [andb].
+    + destruct (Z.eqb_spec m 1) as [->|Hn1]; cbn [negb andb].
+      * cbn [length Nat.add]. apply Hplain. exact Hrest.
+      * destruct (Z.eqb m 2 && Nat.eqb (length regex) 1) eqn:E2; cbn [length Nat.add].
+        -- (* the doubled single character *)
+           rewrite <- app_assoc. eapply parse_seq_step; [exact Hok| |apply Hplain; exact Hrest].
+           unfold parse_quant. pose proof (head_ok_not_quant regex rest Hh) as Hq.
+           destruct regex as [|c regex]; [destruct Hh|]. cbn [app] in *. cbn [starts_quant] in Hq.
+           repeat (apply orb_false_iff in Hq as [Hq ?]).
+           rewrite Hq. replace (Z.eqb c 43) with false by (symmetry; assumption).
+           replace (Z.eqb c 63) with false by (symmetry; assumption). replace (Z.eqb c 123) with false by (symmetry; assumption).
+           reflexivity.
+        -- apply (Hone ([123] ++ dec_of_Z m ++ [125]) m (Some m)). unfold parse_quant. cbn [app].
+           change (Z.eqb 123 42) with false. change (Z.eqb 123 43) with false. change (Z.eqb 123 63) with false.
+           change (Z.eqb 123 123) with true. cbv iota.
+           rewrite <- app_assoc. cbn [app]. rewrite (read_digits_dec m (125 :: rest) Hm ltac:(reflexivity)).
+           change (Z.eqb 125 125) with true. cbv iota. rewrite Hsq. reflexivity.
+    + destruct (Z.eqb m 0 && Z.eqb M' 1) eqn:E01; cbn [length Nat.add].
+      * apply andb_true_iff in E01 as [E0 E1]. apply Z.eqb_eq in E0. apply Z.eqb_eq in E1. subst m M'.
+        apply (Hone [63] 0 (Some 1)). unfold parse_quant. cbn [app].
+        change (Z.eqb 63 42) with false. change (Z.eqb 63 43) with false. change (Z.eqb 63 63) with true. cbv iota.
+        rewrite Hsq. reflexivity.
+      * apply (Hone ([123] ++ dec_of_Z m ++ [44] ++ dec_of_Z M' ++ [125]) m (Some M')). unfold parse_quant. cbn [app].
+        change (Z.eqb 123 42) with false. change (Z.eqb 123 43) with false. change (Z.eqb 123 63) with false.
+        change (Z.eqb 123 123) with true. cbv iota.
+        repeat (rewrite <- !app_assoc; cbn [app]).
+        rewrite (read_digits_dec m (44 :: dec_of_Z M' ++ 125 :: rest) Hm ltac:(reflexivity)).
+        change (Z.eqb 44 125) with false. change (Z.eqb 44 44) with true. cbv iota.
+        rewrite (read_digits_dec M' (125 :: rest) HM ltac:(reflexivity)).
+        change (Z.eqb 125 125) with true. cbv iota. rewrite Hsq. reflexivity.
+  - cbn [length Nat.add]. destruct (Z.eqb m 0).
+    + apply (Hone [42] 0 None). unfold parse_quant. cbn [app]. change (Z.eqb 42 42) with true. cbv iota. rewrite Hsq. reflexivity.
+    + apply (Hone [43] 1 None). unfold parse_quant. cbn [app]. change (Z.eqb 43 42) with false. change (Z.eqb 43 43) with true.
+      cbv iota. rewrite Hsq. reflexivity.
+Qed.
+
+Lemma quant_items_lang ct cs regex m M s :
+  forallb (sem_cset ct cs) s = true -> count_ok m M (length s) -> lang ct (quant_items cs regex m M) s.
+Proof.
+  intros Hall Hc. unfold quant_items. destruct M as [M'|].
+  - destruct (Z.eqb m M' && negb (Z.eqb m 1) && Z.eqb m 2 && Nat.eqb (length regex) 1) eqn:E.
+    + apply andb_true_iff in E as [E _]. apply andb_true_iff in E as [E E2]. apply andb_true_iff in E as [E1 _].
+      apply Z.eqb_eq in E1. apply Z.eqb_eq in E2. subst M' m. cbn [count_ok] in Hc.
+      destruct s as [|a [|b [|c s]]]; cbn [length] in Hc; try lia.
+      cbn [forallb] in Hall. apply andb_true_iff in Hall as [Ha Hb]. apply andb_true_iff in Hb as [Hb _].
+      change [a; b] with ([a] ++ [b] ++ []). constructor; [cbn; rewrite Ha; reflexivity|cbn; lia|].
+      constructor; [cbn; rewrite Hb; reflexivity|cbn; lia|constructor].
+    + rewrite <- (app_nil_r s). constructor; [exact Hall|exact Hc|constructor].
+  - rewrite <- (app_nil_r s). constructor; [exact Hall| |constructor]. cbn [i_min i_max count_ok] in *.
+    destruct (Z.eqb_spec m 0); [left; reflexivity|]. destruct Hc as [Hc|Hc]; [contradiction|right; exact Hc].
+Qed.
+
+(* ------------------------------------------------------------------ C. atoms *)
+Lemma memc_false_neq c l k : memc c l = false -> In k l -> Z.eqb c k = false.
+Proof.
+  unfold memc. intros H Hin. destruct (Z.eqb c k) eqn:E; [|reflexivity].
+  assert (existsb (Z.eqb c) l = true) by (apply existsb_exists; exists k; split; assumption). congruence.
+Qed.
+
+Lemma forallb_memc (P : Z -> bool) l c : forallb P l = true -> memc c l = true -> P c = true.
+Proof. intros Hf Hm. apply memc_In in Hm. rewrite forallb_forall in Hf. apply Hf. exact Hm. Qed.
+
+Lemma not_meta_plain c : is_meta c = false -> atom_ok (CLit c) [c].
+Proof.
+  intro Hm. unfold is_meta in Hm.
+  assert (H92 : Z.eqb c 92 = false) by (apply (memc_false_neq c metas); [exact Hm|cbn; tauto]).
+  assert (H91 : Z.eqb c 91 = false) by (apply (memc_false_neq c metas); [exact Hm|cbn; tauto]).
+  assert (H46 : Z.eqb c 46 = false) by (apply (memc_false_neq c metas); [exact Hm|cbn; tauto]).
+  split.
+  - intro x. cbn [app parse_atom]. rewrite H92, H91, H46. unfold is_meta. rewrite Hm. reflexivity.
+  - cbn [head_ok].
+    rewrite (memc_false_neq c metas 36 Hm), (memc_false_neq c metas 41 Hm), (memc_false_neq c metas 40 Hm),
+            (memc_false_neq c metas 42 Hm), (memc_false_neq c metas 43 Hm), (memc_false_neq c metas 63 Hm),
+            (memc_false_neq c metas 123 Hm); cbn; tauto.
+Qed.
+
+Lemma escaped_special c : memc c re_specials = true -> atom_ok (CLit c) [92; c].
+Proof.
+  intro Hs.
+  pose proof (forallb_memc (fun k => negb (Z.eqb k 100) && negb (Z.eqb k 115) && negb (ascii_alnum k)) re_specials c
+                ltac:(vm_compute; reflexivity) Hs) as H.
+  apply andb_true_iff in H as [H H3]. apply andb_true_iff in H as [H1 H2].
+  apply negb_true_iff in H1. apply negb_true_iff in H2. apply negb_true_iff in H3.
+  split; [|reflexivity]. intro x. cbn [app parse_atom]. change (Z.eqb 92 92) with true. cbv iota.
+  rewrite H1, H2, H3. reflexivity.
+Qed.
+
+Lemma metas_are_special c : memc c re_specials = false -> is_meta c = false.
+Proof.
+  intro H. unfold is_meta. destruct (memc c metas) eqn:E; [|reflexivity].
+  pose proof (forallb_memc (fun k => memc k re_specials) metas c ltac:(vm_compute; reflexivity) E). congruence.
+Qed.
+
+Lemma unescapes_not_meta c : memc c unescapes = true -> is_meta c = false.
+Proof.
+  intro H. pose proof (forallb_memc (fun k => negb (is_meta k)) unescapes c ltac:(vm_compute; reflexivity) H) as Hn.
+  apply negb_true_iff in Hn. exact Hn.
+Qed.
+
+Theorem escape_char_atom full c : atom_ok (CLit c) (escape_char full c).
+Proof.
+  unfold escape_char, re_escape_char. destruct full.
+  - destruct (memc c re_specials) eqn:E; [apply escaped_special; exact E|apply not_meta_plain, metas_are_special; exact E].
+  - destruct (memc c unescapes) eqn:Eu; [apply not_meta_plain, unescapes_not_meta; exact Eu|].
+    destruct (memc c re_specials) eqn:E; [apply escaped_special; exact E|apply not_meta_plain, metas_are_special; exact E].
+Qed.
+
+Lemma dot_atom : atom_ok CAny [46].
+Proof. split; [|reflexivity]. intro x. reflexivity. Qed.
+
+(* ------------------------------------------------------------------ D. category classes (no extra letters) *)
+Definition class_info (code : Z) : option (str * cset) :=
+  match cat_re false [] code with
+  | Some t => match parse_atom t with Some (cs, []) => Some (t, cs) | _ => None end
+  | None => None
+  end.
+
+(* the categories that have a regular expression when there are no extra letters *)
+Definition class_codes : list Z := [cA; ca; cL; cUL; cUM; cD; ch; cH; cX; cN; cn; cC; cUC; cWS; cP; cO; cAny].
+
+Definition class_good (code : Z) : Prop :=
+  exists t cs, cat_re false [] code = Some t /\ atom_ok cs t /\
+               forall ct c, sem_cset ct cs c = cat_sem ct false [] code c.
+
+Local Arguments Z.eqb : simpl nomatch.
+Local Arguments Z.leb : simpl nomatch.
+
+Ltac class_parse := split; [let x := fresh "x" in intro x; destruct x; reflexivity|reflexivity].
+Ltac sem_atoms :=
+  repeat match goal with
+         | |- context [is_word ?ct ?c] => destruct (is_word ct c)
+         | |- context [ct_alnum ?ct ?c] => destruct (ct_alnum ct c)
+         | |- context [ct_space ?ct ?c] => destruct (ct_space ct c)
+         | |- context [ct_decimal ?ct ?c] => destruct (ct_decimal ct c)
+         | |- context [between ?a ?b ?c] => destruct (between a b c)
+         | |- context [Z.eqb ?a ?b] => destruct (Z.eqb a b)
+         end; reflexivity.
+Ltac class_sem :=
+  let ct := fresh "ct" in let c := fresh "c" in
+  intros ct c; unfold cat_sem; cbn; unfold is_upper, is_lower, is_09, is_word; cbn;
+  rewrite ?(Z.eqb_sym 95 c); sem_atoms.
+
+(* the order in which escaped_bracket writes a set of characters *)
+Definition bracket_order (chars : str) : str :=
+  (if memc 93 chars then [93] else []) ++ filter (fun c => negb (memc c bracket_specials)) chars ++
+  (if memc 92 chars then [92] else []) ++ (if memc 94 chars then [94] else []) ++ (if memc 45 chars then [45] else []).
+
+Lemma bracket_order_In chars x : In x (bracket_order chars) <-> In x chars.
+Proof.
+  unfold bracket_order. rewrite !in_app_iff, filter_In. split.
+  - intros [H|[[H _]|[H|[H|H]]]]; try exact H.
+    + destruct (memc 93 chars) eqn:E; [|destruct H]. destruct H as [<-|[]]. apply memc_In. exact E.
+    + destruct (memc 92 chars) eqn:E; [|destruct H]. destruct H as [<-|[]]. apply memc_In. exact E.
+    + destruct (memc 94 chars) eqn:E; [|destruct H]. destruct H as [<-|[]]. apply memc_In. exact E.
+    + destruct (memc 45 chars) eqn:E; [|destruct H]. destruct H as [<-|[]]. apply memc_In. exact E.
+  - intro H. destruct (memc x bracket_specials) eqn:E.
+    + apply memc_In in E. pose proof (proj2 (memc_In x chars) H) as Hm. cbn in E.
+      destruct E as [<-|[<-|[<-|[<-|[]]]]]; rewrite Hm; cbn; tauto.
+    + right. left. split; [exact H|]. reflexivity.
+Qed.
+
+Lemma memc_ext l l' c : (forall x, In x l <-> In x l') -> memc c l = memc c l'.
+Proof.
+  intro H. destruct (memc c l) eqn:E1, (memc c l') eqn:E2; try reflexivity.
+  - apply memc_In, H, memc_In in E1. congruence.
+  - apply memc_In, H, memc_In in E2. congruence.
+Qed.
+
+Lemma br_chars_sem ct l c : existsb (fun b => sem_britem ct b c) (map BChar l) = memc c l.
+Proof.
+  unfold memc. induction l as [|x l IH]; cbn [map existsb sem_britem]; [reflexivity|]. rewrite IH, (Z.eqb_sym x c). reflexivity.
+Qed.
+
+Lemma punct_set_sem c : memc c (punct_chars []) = punct_sem [] c.
+Proof.
+  destruct (between 33 126 c) eqn:Eb.
+  - assert (Hin : In c (map Z.of_nat (seq 33 94))).
+    { unfold between in Eb. apply andb_true_iff in Eb as [H1 H2]. apply Z.leb_le in H1. apply Z.leb_le in H2.
+      apply in_map_iff. exists (Z.to_nat c). split; [lia|]. apply in_seq. lia. }
+    assert (Hall : forallb (fun k => Bool.eqb (memc k (punct_chars [])) (punct_sem [] k))
+                           (map Z.of_nat (seq 33 94)) = true) by (vm_compute; reflexivity).
+    rewrite forallb_forall in Hall. specialize (Hall c Hin). apply Bool.eqb_prop in Hall. exact Hall.
+  - unfold punct_sem. rewrite Eb. cbn [andb].
+    assert (Hr : forallb (between 33 126) (punct_chars []) = true) by (vm_compute; reflexivity).
+    rewrite forallb_forall in Hr. destruct (memc c (punct_chars [])) eqn:E; [|reflexivity].
+    apply memc_In in E. rewrite (Hr c E) in Eb. discriminate.
+Qed.
+
+From Coq Require Import String.
+Local Open Scope string_scope.
+Ltac class_case t cs := exists t, cs; split; [vm_compute; reflexivity|split; [class_parse|class_sem]].
+
+Theorem class_codes_good : Forall class_good class_codes.
+Proof.
+  unfold class_codes. repeat constructor.
+  - class_case (s2l "[A-Z]") (CBr false [BRange 65 90]).
+  - class_case (s2l "[a-z]") (CBr false [BRange 97 122]).
+  - class_case (s2l "[A-Za-z]") (CBr false [BRange 65 90; BRange 97 122]).
+  - class_case (s2l "[^\W0-9_]") (CBr true [BNotWord; BRange 48 57; BChar 95]).
+  - class_case (s2l "[^\W0-9_]") (CBr true [BNotWord; BRange 48 57; BChar 95]).
+  - class_case (s2l "\d") CDigit.
+  - class_case (s2l "[0-9a-f]") (CBr false [BRange 48 57; BRange 97 102]).
+  - class_case (s2l "[0-9A-F]") (CBr false [BRange 48 57; BRange 65 70]).
+  - class_case (s2l "[0-9a-fA-F]") (CBr false [BRange 48 57; BRange 97 102; BRange 65 70]).
+  - class_case (s2l "[A-Z0-9]") (CBr false [BRange 65 90; BRange 48 57]).
+  - class_case (s2l "[a-z0-9]") (CBr false [BRange 97 122; BRange 48 57]).
+  - class_case (s2l "[A-Za-z0-9]") (CBr false [BRange 65 90; BRange 97 122; BRange 48 57]).
+  - class_case (s2l "[^\W_]") (CBr true [BNotWord; BChar 95]).
+  - class_case (s2l "\s") CSpace.
+  - (* punctuation: the bracket over the 32 ASCII punctuation characters *)
+    exists (escaped_bracket false (punct_chars [])), (CBr false (map BChar (bracket_order (punct_chars [] )))).
+    split; [reflexivity|]. split.
+    + split; [|reflexivity]. intro x. destruct x; vm_compute; reflexivity.
+    + intros ct c. cbn [sem_cset xorb]. rewrite br_chars_sem, (memc_ext _ _ c (bracket_order_In (punct_chars []))), punct_set_sem.
+      change (cat_sem ct false [] cP c) with (punct_sem [] c). destruct (punct_sem [] c); reflexivity.
+  - class_case (s2l "[^!-~\s]") (CBr true [BRange 33 126; BSpace]).
+  - class_case (s2l ".") CAny.
+Qed.
+
+(* ------------------------------------------------------------------ E. bracket expressions over an arbitrary set *)
+Local Close Scope string_scope.
+
+Lemma parse_br_first f c r : Z.eqb c 93 = false -> parse_br (S f) (c :: r) true = parse_br (S f) (c :: r) false.
+Proof. intro H. cbn [parse_br]. rewrite H. reflexivity. Qed.
+
+(* a plain member followed by something that is not a dash *)
+Lemma parse_br_plain f c d1 r its x : Z.eqb c 93 = false -> Z.eqb c 92 = false -> Z.eqb d1 45 = false ->
+  parse_br f (d1 :: r) false = Some (its, x) ->
+  parse_br (S f) (c :: d1 :: r) false = Some (BChar c :: its, x).
+Proof.
+  intros H93 H92 Hd H. cbn [parse_br]. rewrite H93, H92. destruct r as [|d r']; [rewrite H; reflexivity|].
+  rewrite Hd, H. reflexivity.
+Qed.
+
+(* a plain member followed by the final dash *)
+Lemma parse_br_dash f c x : Z.eqb c 93 = false -> Z.eqb c 92 = false ->
+  parse_br (S f) (c :: 45 :: 93 :: x) false = Some ([BChar c; BChar 45], x).
+Proof. intros H93 H92. cbn [parse_br]. rewrite H93, H92. reflexivity. Qed.
+
+Definition plain_member (c : Z) : Prop := Z.eqb c 93 = false /\ Z.eqb c 92 = false /\ Z.eqb c 45 = false.
+
+(* T is what follows the plain members: it does not start with a dash, or it is exactly the final dash *)
+Lemma parse_br_mains ms : forall f T itsT x, Forall plain_member ms ->
+  (match T with d :: _ => Z.eqb d 45 = false | [] => False end \/ (T = 45 :: 93 :: x /\ itsT = [BChar 45])) ->
+  parse_br f T false = Some (itsT, x) ->
+  parse_br (List.length ms + f) (ms ++ T) false = Some (map BChar ms ++ itsT, x).
+Proof.
+  induction ms as [|c ms IH]; intros f T itsT x Hms HT H; [exact H|].
+  inversion Hms as [|? ? [H93 [H92 H45]] Hms']; subst. cbn [List.length Nat.add app map].
+  specialize (IH f T itsT x Hms' HT H).
+  destruct ms as [|c2 ms].
+  - cbn [app List.length Nat.add map] in *. destruct HT as [HT|[-> ->]].
+    + destruct T as [|d T]; [destruct HT|]. apply parse_br_plain; assumption.
+    + apply parse_br_dash; assumption.
+  - inversion Hms' as [|? ? [_ [_ H45']] _]; subst. cbn [app] in *. apply parse_br_plain; assumption.
+Qed.
